@@ -1205,11 +1205,13 @@ func vRunControl(c *vCase) {
 	if kind == "selfend" {
 		endAt = vRange(r, 2, nreq-2)
 	}
+	stopThenStart := false
 	stopFirst := vChance(r, 0.3) // after the source has ended by itself the very next request is Stop, then a new Start
 	for i := 0; i < nreq && !k.dead; i++ {
 		if stopFirst && k.selfEnded && (k.settled || kind == "erroring") {
 			c.Cov("stop_is_first_request_after_self_termination", 1)
 			k.reqStop()
+			stopThenStart = true // and the very next one is the Start of a new source (nothing in between that would let the server notice by other means)
 			break
 		}
 		if i == endAt && vChance(r, 0.4) {
@@ -1311,7 +1313,7 @@ func vRunControl(c *vCase) {
 			k.reqStop()
 		}
 		// after a stop every queued request must be refused, not hang
-		if !k.dead {
+		if !k.dead && !stopThenStart {
 			k.reqTriggers()
 		}
 	}
